@@ -166,6 +166,40 @@ def skipF (rules : List Rule) (e : Expr) : Expr :=
     | none => e
   | _ => e
 
+/-- `populate_choices` as written since f10b39f: it gives up as soon as its list is longer than the bound (checked on entry
+and after the final push). -/
+def populateChoicesCapped (cap : Nat) (rules : List Rule) : Nat → Expr → List Str → Option Expr
+  | 0, _, _ => none
+  | fuel + 1, e, choices =>
+    if cap < choices.length then none else
+    match e with
+    | .choice (.str s) rhs => populateChoicesCapped cap rules fuel rhs (choices ++ [s])
+    | .choice (.ident name) rhs =>
+      match (lookupExpr rules name).bind (fun x => populateChoicesCapped cap rules fuel x []) with
+      | some (.skip inl) => populateChoicesCapped cap rules fuel rhs (choices ++ inl)
+      | _ => none
+    | .choice _ _ => none
+    | .str s => if cap < (choices ++ [s]).length then none else some (.skip (choices ++ [s]))
+    | .ident name => (lookupExpr rules name).bind (fun x => populateChoicesCapped cap rules fuel x choices)
+    | _ => none
+
+/-- the bound applied to a finished list. -/
+def capResult (cap : Nat) : Option Expr → Option Expr
+  | some (.skip l) => if cap < l.length then none else some (.skip l)
+  | some _ => none
+  | none => none
+
+/-- the local rewrite of the `skip` pass, transcribed with `populate_choices` as it is written (early exit). -/
+def skipFAsWritten (rules : List Rule) (e : Expr) : Expr :=
+  match e with
+  | .rep (.seq (.negPred inner) (.ident "ANY")) =>
+    match (match PestModel.Gen.Consts.maxSkipStrings with
+      | some c => populateChoicesCapped c rules (rulesSize rules + inner.size + 1) inner []
+      | none => populateChoices rules (rulesSize rules + inner.size + 1) inner []) with
+    | some x => x
+    | none => e
+  | _ => e
+
 def skip (rules : List Rule) (r : Rule) : Rule :=
   if r.ty = .atomic then { r with expr := mapTopDown (skipF rules) (r.expr.size + 1) r.expr } else r
 
